@@ -96,6 +96,9 @@ pub enum Action {
     ShortOnly { num: u32, den: u32 },
     /// fails once with EINTR; benign, std retries
     Eintr,
+    /// the disk is full (or the device gone) from this call on: this and every later write,
+    /// extension and sync fails with the errno until the plan is disarmed
+    Sticky(i32),
 }
 
 #[derive(Clone, Copy, Debug, PartialEq, Eq)]
@@ -135,6 +138,7 @@ struct Sim {
     calls: u64,
     call_kinds: Vec<Call>,
     plan: Vec<Fault>,
+    sticky: Option<i32>,
     fired: Vec<(u64, Call, Action)>,
     total_calls: u64,
     /// writes through descriptors we do not model (mmap MAP_SHARED|PROT_WRITE etc.)
@@ -337,6 +341,7 @@ pub fn arm(plan: Vec<Fault>) {
     with(|s| {
         s.calls = 0;
         s.call_kinds.clear();
+        s.sticky = None;
         s.plan = plan;
     });
 }
@@ -344,6 +349,7 @@ pub fn arm(plan: Vec<Fault>) {
 pub fn disarm() -> (u64, Vec<Call>) {
     with(|s| {
         s.plan.clear();
+        s.sticky = None;
         (s.calls, std::mem::take(&mut s.call_kinds))
     })
 }
@@ -465,11 +471,20 @@ fn decide(s: &mut Sim, call: Call) -> Decision {
     if s.call_kinds.len() < 100_000 {
         s.call_kinds.push(call);
     }
+    if let Some(e) = s.sticky {
+        if matches!(call, Call::Write | Call::Fallocate | Call::Ftruncate | Call::Fsync) {
+            return Decision::Fail(e);
+        }
+    }
     if let Some(pos) = s.plan.iter().position(|f| f.nth == idx) {
         let f = s.plan.remove(pos);
         s.fired.push((idx, call, f.action));
         return match f.action {
             Action::Errno(e) => Decision::Fail(e),
+            Action::Sticky(e) => {
+                s.sticky = Some(e);
+                Decision::Fail(e)
+            }
             Action::Eintr => Decision::Fail(libc::EINTR),
             Action::ShortThenErr { num, den, errno } => {
                 if call == Call::Write {
